@@ -223,6 +223,83 @@ fn body(depth: u32, can_yield: bool, in_catch: bool, memo: &mut Memo) -> BoxedSt
     s
 }
 
+fn origin() -> impl Strategy<Value = Origin> {
+    prop_oneof![
+        3 => Just(Origin::New),
+        2 => Just(Origin::DefaultCall),
+        1 => Just(Origin::DefaultGeneric),
+        1 => Just(Origin::DefaultAlias),
+        3 => Just(Origin::Shared),
+        1 => Just(Origin::SetupNewRuntime),
+        1 => Just(Origin::SetupFnRuntime),
+        1 => Just(Origin::SetupSlot),
+    ]
+}
+
+fn origins() -> impl Strategy<Value = [Origin; 3]> {
+    prop_oneof![
+        // the original arrangement first (shrinks towards it)
+        1 => Just(default_origins()),
+        5 => [origin(), origin(), origin()],
+    ]
+}
+
+/// Complete small scope over the ways of obtaining instances: every ordered triple of origins x
+/// (kind of the outer frame on slot 0) x (kind of the inner frame on slot 1), with a frame of slot 2
+/// created up front and entered innermost; every check looks at all three slots and at `shared()`.
+fn origin_triples() -> impl Iterator<Item = Case> + Send {
+    let kinds = [Kind::Push, Kind::Root, Kind::Current];
+    let mut out = Vec::new();
+    for o0 in ALL_ORIGINS {
+        for o1 in ALL_ORIGINS {
+            for o2 in ALL_ORIGINS {
+                for k0 in kinds {
+                    for k1 in kinds {
+                        let spec = |inst: u8, kind: Kind, wrap: Wrap, key: u8, v: i64| Spec {
+                            inst,
+                            wrap,
+                            kind,
+                            via_ctxt: false,
+                            props: vec![(key, Val::I(v)), (3, Val::I(v + 10))],
+                        };
+                        let wraps = [Wrap::Direct, Wrap::Dyn, Wrap::Internal, Wrap::Ref, Wrap::Arced];
+                        let w = |i: usize| wraps[(out.len() + i) % wraps.len()];
+                        out.push(Case {
+                            origins: [o0, o1, o2],
+                            quiet_start: out.len() % 2 == 1,
+                            prog: vec![
+                                Node::Create(spec(2, Kind::Push, w(2), 2, 3)),
+                                Node::Frame {
+                                    spec: spec(0, k0, w(0), 0, 1),
+                                    how: How::Guard,
+                                    body: vec![
+                                        Node::Check(Obs::Dyn),
+                                        Node::Frame {
+                                            spec: spec(1, k1, w(1), 1, 2),
+                                            how: How::Call,
+                                            body: vec![
+                                                Node::Check(Obs::All),
+                                                Node::Enter {
+                                                    slot: 0,
+                                                    how: How::With,
+                                                    body: vec![Node::Check(Obs::Event)],
+                                                },
+                                            ],
+                                        },
+                                        Node::Check(Obs::Direct),
+                                    ],
+                                },
+                                Node::Check(Obs::All),
+                            ],
+                        });
+                    }
+                }
+            }
+        }
+    }
+    out.into_iter()
+}
+
 fn how_any() -> impl Strategy<Value = How> {
     prop_oneof![6 => how_sync(), 2 => Just(How::InFuture)]
 }
@@ -268,8 +345,12 @@ fn program() -> BoxedStrategy<Case> {
             pre.extend(post);
             pre
         });
-    (prop::bool::weighted(0.3), prop_oneof![5 => generic, 1 => skeleton])
-        .prop_map(|(quiet_start, prog)| Case { quiet_start, prog })
+    (origins(), prop::bool::weighted(0.3), prop_oneof![5 => generic, 1 => skeleton])
+        .prop_map(|(origins, quiet_start, prog)| Case {
+            origins,
+            quiet_start,
+            prog,
+        })
         .boxed()
 }
 
@@ -322,6 +403,7 @@ fn nested_pairs() -> impl Iterator<Item = Case> + Send {
                                     props: vec![(0, Val::I(3)), (2, Val::S("x".into()))],
                                 };
                                 out.push(Case {
+                                    origins: default_origins(),
                                     quiet_start: (out.len() % 2) == 1,
                                     prog: vec![
                                         Node::Create(deferred),
@@ -455,6 +537,19 @@ fn main() {
             "kind:current",
             "fresh-thread-first-op-is-enter",
             "fresh-thread-first-op-is-enter:carried-frame",
+            "instance-kind:new",
+            "instance-kind:default",
+            "instance-kind:shared",
+            "instance-kind:setup-default-ctxt",
+            "pair:default+default",
+            "pair:default+shared",
+            "pair:setup+setup",
+            "pair:default+setup",
+            "pair:setup+shared",
+            "pair:default+new",
+            "both-active:default+default",
+            "both-active:default+shared",
+            "both-active:setup+setup",
         ] {
             s.require(c, q / 400);
         }
@@ -464,6 +559,7 @@ fn main() {
         let races = s.sample("instance-id-races", race_case(), s.n(250, 6_000) as usize);
         s.manual("instance-id-races", races, race::check);
         s.enumerate("nested-pairs-exhaustive", nested_pairs(), check);
+        s.enumerate("origin-triples-exhaustive", origin_triples(), check);
         s.gen("programs", s.n(60_000, 2_000_000), program, check);
     })
 }
